@@ -14,6 +14,7 @@ pub mod c16;
 pub mod c17;
 pub mod c18;
 pub mod c19;
+pub mod c20;
 
 pub type ReplayResult = Result<Vec<String>, (Vec<String>, String, String)>;
 
@@ -31,6 +32,7 @@ pub fn run(prop: &str, opts: &Opts) -> Vec<Report> {
         "C17" => c17::run(opts),
         "C18" => c18::run(opts),
         "C19" => c19::run(opts),
+        "C20" => c20::run(opts),
         _ => crate::explore::machinery(&format!("unknown property {}", prop)),
     }
 }
@@ -49,6 +51,7 @@ pub fn replay(prop: &str, case: &Value) -> ReplayResult {
         "C17" => c17::replay(case),
         "C18" => c18::replay(case),
         "C19" => c19::replay(case),
+        "C20" => c20::replay(case),
         _ => crate::explore::machinery(&format!("unknown property {}", prop)),
     }
 }
